@@ -316,8 +316,19 @@ pub fn well_formed(rng: &mut Rng) -> Spec {
                 let s = rng.pick(&loads);
                 let value = if !addrs.is_empty() && rng.chance(1, 4) { *rng.pick(&addrs) } else { s.vaddr + rng.below(s.memsz) };
                 addrs.push(value);
-                let name = match rng.below(6) {
+                let name = match rng.below(8) {
                     0 => String::new(),
+                    6 => {
+                        // long and not ASCII: mangled C++/Rust names run to hundreds of bytes, identifiers may be any UTF-8
+                        let chars = ['a', 'Z', '_', '$', '.', 'é', 'ß', '日', '𝄞', '0'];
+                        let len = *rng.pick(&[60u64, 120, 126, 127, 128, 129, 130, 200, 255, 256, 257, 300, 1000]) + rng.below(4);
+                        let mut st = String::new();
+                        while (st.len() as u64) < len {
+                            st.push(*rng.pick(&chars));
+                        }
+                        st
+                    }
+                    7 => format!("{}{}", "n".repeat(*rng.pick(&[125usize, 126, 127, 253, 254, 255])), rng.pick(&["é", "日本", "𝄞x", "ab"])),
                     1 => format!("s{}", k),
                     2 => format!("_Z{}fooEv_{}", k, "x".repeat(rng.below(40) as usize)),
                     _ => format!("sym_{:x}_{}", value & 0xfff, k),
